@@ -337,6 +337,43 @@ pub fn literals() -> Vec<Lit> {
             }
         }
     }
+    // the largest whole number of each unit that a duration can hold (i64 seconds), one less, one more, each alone
+    // and with fractions that stay inside or carry it past the end
+    for (u, scale, _) in units.iter() {
+        let unit_s = scale / 1_000_000_000;
+        if unit_s == 0 {
+            continue; // milliseconds: the whole part is bounded by the number type first (large/ family)
+        }
+        let w = (i64::MAX as i128) / unit_s;
+        for whole in [w - 1, w, w + 1] {
+            for frac in ["", "0", "5", "9", "25", "75", "999999999", "000000001"] {
+                for neg in [false, true] {
+                    let body = if frac.is_empty() { format!("{}", whole) } else { format!("{}.{}", whole, frac) };
+                    let mut ns: Option<i128> = whole.checked_mul(*scale);
+                    if !frac.is_empty() {
+                        let num: i128 = frac.parse().unwrap();
+                        let den: i128 = 10i128.pow(frac.len() as u32);
+                        ns = match (ns, num.checked_mul(*scale)) {
+                            (Some(a), Some(p)) if p % den == 0 => a.checked_add(p / den),
+                            _ => None,
+                        };
+                        if num * scale % den != 0 {
+                            // finer than a nanosecond: rejected for that reason
+                            out.push(Lit { label: format!("duration/largest-whole-{}/finer-than-a-nanosecond", u), type_text: "TIME", pieces: vec!["T".into(), "#".into(), if neg { format!("-{}", body) } else { body.clone() }, u.to_string()], expect: Expect::Reject("finer than a nanosecond"), address: false });
+                            continue;
+                        }
+                    }
+                    let mut pieces: Vec<String> = vec!["T".into(), "#".into()];
+                    if neg {
+                        pieces.push("-".into());
+                    }
+                    pieces.push(body);
+                    pieces.push(u.to_string());
+                    out.push(dur(pieces, ns.map(|v| if neg { -v } else { v }), format!("duration/largest-whole-{}", u)));
+                }
+            }
+        }
+    }
     // every duration body up to length 5 over the characters a duration is made of, judged by a reference
     // recogniser written from B.1.2.3.1 (what is a duration has its exact value)
     {
